@@ -157,10 +157,11 @@ def _mk(storage):
 
 
 def h_abort_phase(phase: int, storage: str) -> None:
-    """Abort after begin / after the k-th store / after vote; conflict during store; then state unchanged."""
+    """Abort after begin / after the k-th store / after vote; conflict during store; the callback that tpc_finish
+    runs before the commit point raises (phase 6); then state unchanged."""
     with untraced():
         env, s, h, pre = _mk(storage)
-    k = choose(phase, 6)
+    k = choose(phase, 7)
     with untraced():
         from ZODB.POSException import ConflictError
         t = T.meta(b'u', b'aborting')
@@ -180,6 +181,17 @@ def h_abort_phase(phase: int, storage: str) -> None:
         if k == 5:
             s.tpc_abort(T.meta())          # abort by a stranger: ignored, transaction still in progress
             check(s.tpc_transaction() is t, 'tpc_abort with another transaction disturbed the current one')
+        if k == 6:
+            class Boom(Exception):
+                pass
+
+            def cb(tid):
+                raise Boom('callback failed before the commit point')
+            try:
+                s.tpc_finish(t, cb)
+                fail('tpc_finish swallowed the exception of its callback')
+            except Boom:
+                pass
         s.tpc_abort(t)
         _state(env, s, h.m, pre, 'abort in phase %d' % k)
         s.tpc_abort(t)                     # second abort is a no-op
@@ -456,7 +468,7 @@ HARNESSES = [
             quick=dict(timeout=100, shards=shards(template=['T1'])),
             thorough=dict(timeout=300, shards=shards(template=['T1', 'T2']))),
     Harness('abort_phase', h_abort_phase,
-            decides='abort after begin / stores / conflict / vote / foreign abort leaves the pre-transaction state and a free lock',
+            decides='abort after begin / stores / conflict / vote / foreign abort / a failing tpc_finish callback leaves the pre-transaction state and a free lock',
             symbolic='phase selector (0..5)', bounds='history T1 (+ one demo change)', oracle='pre-state bytes + RevStore battery',
             code=['FileStorage._abort', 'BaseStorage.tpc_abort', 'MappingStorage.tpc_abort', 'DemoStorage.tpc_abort'],
             quick=dict(timeout=100, shards=shards(storage=['file', 'mapping', 'demo', 'demo_file'])),
